@@ -335,6 +335,12 @@ func (e *Exec) hashUF(name string, in []*Term, outBytes int) []*Term {
 		e.hashApps = map[string][]hashApp{}
 	}
 	for _, prev := range e.hashApps[name] {
+		if len(prev.in) == len(in) && sameTerms(prev.in, in) {
+			// the same application again: reuse the very same output terms
+			return splitBytes(prev.out)
+		}
+	}
+	for _, prev := range e.hashApps[name] {
 		if prev.out.IsConst() && outT.IsConst() {
 			continue
 		}
@@ -346,6 +352,45 @@ func (e *Exec) hashUF(name string, in []*Term, outBytes int) []*Term {
 	}
 	e.hashApps[name] = append(e.hashApps[name], hashApp{in: in, out: outT})
 	return out
+}
+
+// sameTerm: structural equality of two terms (pointer-equal subterms short-circuit).
+func sameTerm(a, b *Term, memo map[[2]*Term]bool) bool {
+	if a == b {
+		return true
+	}
+	if a.Op != b.Op || a.S != b.S || len(a.Args) != len(b.Args) || a.Hi != b.Hi || a.Lo != b.Lo || a.Name != b.Name {
+		return false
+	}
+	if a.Op == "const" {
+		return sameConst(a, b)
+	}
+	if len(a.Args) == 0 {
+		return a.Op == "var"
+	}
+	k := [2]*Term{a, b}
+	if v, ok := memo[k]; ok {
+		return v
+	}
+	res := true
+	for i := range a.Args {
+		if !sameTerm(a.Args[i], b.Args[i], memo) {
+			res = false
+			break
+		}
+	}
+	memo[k] = res
+	return res
+}
+
+func sameTerms(a, b []*Term) bool {
+	memo := map[[2]*Term]bool{}
+	for i := range a {
+		if !sameTerm(a[i], b[i], memo) {
+			return false
+		}
+	}
+	return true
 }
 
 func sliceOfSlices(v Value) [][]*Term {
